@@ -116,6 +116,60 @@ def classify(f, trace, state):
     return f"{f['a']}:{f['kind']}:{','.join(what)}:{f['verdict']}:{setup['family']}:{entry['ctype']}:{kinds}", False
 
 
+REPLAY_FIELDS = {
+    "C03": {"pos", "cell", "cons", "lastPos", "presel"},
+    "C04": {"lastE", "lastRes", "calcAtoms", "calcRes", "lastCell"},
+    "C05": {"labels", "nexch", "added", "deleted", "pdelta", "n"},
+}
+
+
+def replay_layer(rep, prop, tier):
+    """spec -> code: complete behaviours of MC_QMC.tla replayed into the real drivers (qreplay.py)"""
+    import os
+    import tempfile
+
+    import qreplay
+
+    tmp = tempfile.mkdtemp(prefix="qreplay_")
+    out = os.path.join(tmp, "behaviours.out")
+    n = nbad = 0
+    try:
+        rc = qreplay.generate(tier, out)
+        if rc != 0:
+            rep.error(f"TLC failed on MC_QMC_Replay (rc={rc})")
+            return
+        stride = 30 if tier == "quick" else 1
+        for i, line in enumerate(open(out)):
+            if not line.startswith('"@@') or i % stride:
+                continue
+            beh = json.loads(json.loads(line)[2:])
+            n += 1
+            try:
+                r = qreplay.replay(beh)
+            except Exception as ex:  # noqa: BLE001  (harness failure)
+                rep.error(f"replay harness failed: {type(ex).__name__}: {ex}")
+                break
+            key = json.dumps([beh["driver"], [(h["a"], h["name"], h["verdict"], [(x["k"], x.get("dir"), x["lab"], x["ok"]) for x in h["subs"]]) for h in beh["hist"][1:]]])
+            rep.count("replay:" + key, nontrivial=True)
+            if n == 1:
+                rep.sample({"replayed_behaviour": {"driver": beh["driver"], "actions": [(h["a"], h["name"], h["verdict"], h["subs"]) for h in beh["hist"][1:]]}})
+            if not r:
+                continue
+            sig, msg, detail = r
+            fields = set(sig.split(":")[2].split(",")) if sig.startswith("replay:state:") else set()
+            if sig.startswith("replay:state:") and not (fields & REPLAY_FIELDS[prop]):
+                continue  # belongs to another property's check
+            if sig.startswith("replay:state:cons:rej:GrandCanonical") and fields == {"cons"}:
+                sig = "cons-shift-after-rejected-deletion"
+            nbad += 1
+            rep.violation(sig, f"{prop} (replay of a specification behaviour): {msg}", detail)
+    finally:
+        import shutil
+
+        shutil.rmtree(tmp, ignore_errors=True)
+    rep.add(behaviours_replayed=n)
+
+
 FAMILIES = {
     "C03": ["canon", "gc", "gc", "npt", "hmc"],
     "C04": ["canon", "gc", "npt", "hmc"],
@@ -140,6 +194,8 @@ def engine_check(prop, tier, level="model_checking", n_quick=240, n_thorough=240
         else:
             rep.error(f"TLC failed on MC_QMC: {mr.out[-1500:]}")
     rep.add(states=mr.distinct, transitions=mr.generated, engine_model_states=mr.distinct)
+    if prop in REPLAY_FIELDS and families is None:
+        replay_layer(rep, prop, tier)
     n = n_quick if tier == "quick" else n_thorough
     fams = families or FAMILIES[prop]
     seeds = [(rep.seed * 1000 + i, fams[i % len(fams)]) for i in range(n)]
